@@ -183,5 +183,5 @@ if __name__ == "__main__":
     import sys, os
     f = copy.deepcopy(FAMILIES[sys.argv[1]])
     f.update(TIER_OVERRIDES.get((sys.argv[1], os.environ.get("TIER", "thorough")), {}))
-    f["PropIds"] = ALLPROPS
+    f["PropIds"] = [os.environ["PROP"]] if os.environ.get("PROP") else ALLPROPS
     write_model(f, sys.argv[2])
